@@ -227,7 +227,7 @@ Qed.
 Lemma drawing_step_wf opcode b its d' b' : wf_bytes b ->
   drawing_step opcode b = (its, StepOk d' b') -> good_step true its d'.
 Proof.
-  intros W. unfold drawing_step, good_step. cbv zeta beta.
+  intros W. unfold drawing_step, draw_group, good_step. cbv zeta beta.
   destruct (opcode <? 224).
   { set (cfg := if _ <? 2 then _ else _). destruct cfg as [[op ncoords] nreps] eqn:Ecfg.
     set (one := if op =? opA then arc_rep false else if op =? opa then arc_rep true else draw_rep op ncoords).
